@@ -152,6 +152,16 @@ def run(rep: common.Report, tier: str, seed: int, replay=None) -> int:
                         # options with which no step can be recorded / no solver chosen (a non-positive dt_init is only put to
                         # SolverOptions.validate in the correspondence below: as found, such a run never ended)
                         dict(save_every=0), dict(save_every=-1), dict(sparse_solver=None)]
+            # not-a-number where a positive number is required (every comparison with it is false): put to validate() directly -
+            # a run with such a value may never end
+            for nan_kw in (dict(dt_init=float("nan")), dict(save_every=float("nan"))):
+                try:
+                    SolverOptions(solve_time=1.0, **nan_kw).validate()
+                    rep.violation("ill-posed problem accepted (inconsistent options): SolverOptions.validate() accepts not-a-number",
+                                  {"options": str(nan_kw)})
+                except ValueError:
+                    pass
+                rep.count(1)
             for bo in bad_opts:
                 expect_rejected(rep, "inconsistent options", f"dev{di} {bo}", lambda out, bo=bo: solve(dev, out, opt_over=bo), td, f"a{n}"); n += 1
             # 6. seed solution from a different device
